@@ -40,8 +40,8 @@ def _valid_plain(case, sols):
     for s in sols:
         if not go(case["O"], s):
             return False, f"invalid reconciliation returned: {json.dumps(s)}"
-        if orc.cost_of(s, case["costs"]) == float("inf") and case["costs"]["hgt"] != "inf":
-            return False, "infinite cost"
+        if orc.cost_of(s, case["costs"]) == float("inf"):
+            return False, "a returned reconciliation has infinite cost"
     return True, "valid"
 
 
@@ -87,6 +87,8 @@ def batches(ctx):
                 ok, why = LB.valid_ordered(c["S"], c["O"], sol)
                 if not ok:
                     return False, f"{k}: {why}"
+                if LB.cost_labelled(c["S"], sol, c["costs"], True) == float("inf"):
+                    return False, f"{k}: a returned solution has infinite cost"
         return True, "all returned labelled solutions are valid"
     b.oracle = oracle_ord
     b.eqb = "spfs_eqb_weak"
@@ -103,6 +105,8 @@ def batches(ctx):
                 ok, why = LB.valid_unordered(c["S"], c["O"], sol)
                 if not ok:
                     return False, f"{k}: {why}"
+                if LB.cost_labelled(c["S"], sol, c["costs"], False) == float("inf"):
+                    return False, f"{k}: a returned solution has infinite cost"
         return True, "all returned labelled solutions are valid"
     b.oracle = oracle_un
     b.eqb = "uspfs_eqb_weak"
@@ -162,6 +166,59 @@ def extra(ctx):
             ctx.findings.append(Finding("validity_sample", case, r, "(validity predicate)", False, why))
             bad += 1
     ctx.notes.append(f"validity predicates evaluated on {n} further random inputs (arbitrary costs), {bad} failures")
+    _polytomy_stage(ctx)
+
+
+def polytomy_verdict(case):
+    """extended solvers (both policies) on a multifurcating input of the C08 generator: every returned solution, read
+    on its OWN binary input (a refinement), must satisfy the validity predicates and have finite cost"""
+    from . import c08
+    from superrec2.utils.dynamic_programming import RetentionPolicy as RP
+    fams = sorted({f for v in case["syn"].values() for f in v})
+    code = {f: i + 1 for i, f in enumerate(fams)}
+    cv = case.get("costs", [0, 1, 1, 1, 1])
+    costs = {"spe": cv[0], "dup": cv[1], "hgt": R.INF if cv[2] is None else cv[2], "floss": cv[3], "sloss": cv[4]}
+    n = 0
+    for pol in (RP.ANY, RP.ALL):
+        try:
+            res = c08._solvers()[case["solver"]](c08.make_input(case), pol)
+        except Exception as e:  # noqa: BLE001
+            return False, f"{case['solver']} raised {type(e).__name__} on a polytomous input", n
+        if not res:
+            return False, f"{case['solver']} returned no solution on a polytomous input", n
+        for out in res:
+            n += 1
+            try:
+                shp, sol = R.case_of_output(out, code)
+            except ValueError as e:
+                return False, str(e), n
+            ordered = case["solver"] == "spfs"
+            ok, why = (LB.valid_ordered if ordered else LB.valid_unordered)(shp["S"], shp["O"], sol)
+            if not ok:
+                return False, f"{case['solver']} on a polytomous input: {why}", n
+            if LB.cost_labelled(shp["S"], sol, costs, ordered) == float("inf") or out.cost() == float("inf"):
+                return False, f"{case['solver']} on a polytomous input: a returned solution has infinite cost", n
+            want = {o: sorted(code[f] for f in v) if not ordered else [code[f] for f in v] for o, v in case["syn"].items()}
+            got = {l.name: (list(y["syn"])) for l, (_, y) in zip(out.input.object_tree.iter_leaves(), R.otree_leaves(shp["O"]))}
+            if got != want:
+                return False, f"{case['solver']} on a polytomous input: leaf syntenies changed ({got} for {want})", n
+    return True, "every solution valid on its refinement, finite cost, leaf data kept", n
+
+
+def _polytomy_stage(ctx):
+    from . import c08
+    cases = c08._solver_cases(ctx.rng, ctx.quick())
+    bad = sols = 0
+    for case in cases:
+        ok, why, n = polytomy_verdict(case)
+        sols += n
+        ctx.evaluations += 1
+        if not ok:
+            bad += 1
+            if bad <= 3:
+                ctx.findings.append(Finding("polytomy_validity", case, {"verdict": why}, "(validity predicate)", False, why))
+    ctx.dist["polytomy_validity"] = {"inputs": len(cases), "solutions_checked": sols, "failures": bad}
+    ctx.notes.append(f"multifurcating inputs: {len(cases)} inputs, {sols} returned solutions validated on their own refinement, {bad} failures")
 
 
 def search(ctx):
@@ -199,6 +256,9 @@ def replay_case(payload):
     """search / validity_sample findings: validity predicates on every solution returned for the stored input
     (ordered inputs carry a "pres" key, unordered ones do not)"""
     case = payload["case"]
+    if payload.get("batch") == "polytomy_validity":
+        ok, why, _ = polytomy_verdict(case)
+        return ok, why, {"verdict": why}
     if "pres" not in case and all(not l.get("syn") for _, l in R.otree_leaves(case["O"])):
         r = c01.impl_thl(case)
         if "error" in r:
